@@ -211,9 +211,6 @@ impl TB {
         let fields = (0..4).map(|k| Field { kind: FieldKind::Count, offset: 4 + 2 * k, len: 2, section: 9 }).collect();
         TB { buf, fields, counts: [0; 4] }
     }
-    pub fn pos(&self) -> usize {
-        self.buf.len()
-    }
     /// Literal labels followed by a pointer or the root label.
     pub fn name(&mut self, labels: &[&[u8]], pointer: Option<usize>, section: u8) {
         for l in labels {
